@@ -46,6 +46,7 @@ type Contract struct {
 	HasMod   bool
 	Decr     *Clause
 	Loops    map[int]*LoopSpec
+	Maintains []*Clause // closure invariants over its captured cells (assumed at entry, proved at exit; carried across calls that receive the closure)
 	Impl     string   // implements <iface method key>
 	ImplKey  string   // resolved generic specification key
 	NImportedReq int
@@ -74,7 +75,7 @@ type ContractSet struct {
 
 var clauseKeywords = map[string]bool{
 	"func": true, "iface": true, "extern": true, "lemma": true, "cover": true,
-	"use": true, "ghost": true, "requires": true, "ensures": true, "ensures-assumed": true, "modifies": true,
+	"use": true, "ghost": true, "requires": true, "ensures": true, "ensures-assumed": true, "maintains": true, "modifies": true,
 	"decreases": true, "loop": true, "trusted": true, "inline": true, "noinline": true,
 	"implements": true, "tags": true, "params": true, "extra": true, "reveal": true,
 }
@@ -291,6 +292,13 @@ func (cs *ContractSet) parseFile(path string, pkgPath string, raw bool) error {
 				} else {
 					cur.Ensures = append(cur.Ensures, c)
 				}
+			case "maintains":
+				label := readLabel()
+				x, err := readSx()
+				if err != nil {
+					return err
+				}
+				cur.Maintains = append(cur.Maintains, &Clause{Kind: kw, Tags: tags, Label: label, Expr: x, Src: src(at)})
 			case "modifies":
 				x, err := readSx()
 				if err != nil {
